@@ -224,17 +224,25 @@ class QvmEval(EvaluationContext):
 
     def eval_var(self, var):
         var = var.lower()
-        if var in self.global_vars:
+        frame = self.cpu.cur_frame
+        routine = None
+        if frame is not None:
+            routine = self.find_routine_func(frame.code_start)
+
+        # a parameter or local of the current routine hides a shared
+        # variable of the same name (the order the compiler uses)
+        shadowed = routine is not None and (
+            var in routine.params or var in routine.local_vars or
+            var in routine.static_vars)
+        if var in self.global_vars and not shadowed:
             try:
                 return (self.cpu.globals_segment,
                         get_global_var_idx(self, var))
             except KeyError:
                 pass
 
-        frame = self.cpu.cur_frame
         if frame is None:
             raise EvalError('No stack frame')
-        routine = self.find_routine_func(frame.code_start)
 
         if var in routine.static_vars:
             # STATIC variables live in the globals segment under a
